@@ -496,6 +496,14 @@ def host_main(workload, path):
     if time.timezone != west:
         raise HarnessError("host zone not in force: %r != %r" % (
             time.timezone, west))
+    if trace.get("host_dst_rule"):
+        # a zone that defines daylight saving: whether it is in effect at
+        # import depends on the real date, so the simulated world starts
+        # with what the real `time` module reports right now
+        if (time.altzone, time.daylight) != (trace["zones"][0][1], 1):
+            raise HarnessError("host DST rule not in force: %r" % (
+                (time.timezone, time.altzone, time.daylight),))
+        trace["isdst"] = 1 if time.localtime().tm_isdst == 1 else 0
     arm_alarm()
     print("HOST " + json.dumps(workload.execute(trace), default=str))
     return 0
